@@ -34,6 +34,12 @@ type c16Case struct {
 	// Own (uses-when, augment-when): the guarded leaf y2 / y also states a when of its own, "w='on'", and w holds "on"
 	// (Own = "holds") or "off" (Own = "fails"): a node is there when both conditions hold
 	Own string `json:"own,omitempty"`
+	// Mid (uses-when): the grouping is used through a second grouping, 'grouping g0 { uses g { when "w2='on'"; } }
+	// uses g0 { when <expr>; }', and w2 holds "on" (Mid = "holds") or "off" (Mid = "fails"): three conditions are chained
+	Mid string `json:"mid,omitempty"`
+	// Default (operand by its name only): the operand leaf has this schema default, so a row that does not set it is
+	// compared by the default
+	Default string `json:"default,omitempty"`
 	// Hide (reads): the request also carries a fields= ("fields") or fc.xfields= ("xfields") parameter that leaves the
 	// operand of the expression out of the answer: what the expression decides stays the same, the answer is its projection
 	Hide string `json:"hide,omitempty"`
@@ -158,6 +164,10 @@ func c16Run(c c16Case, o *hx.Obs) {
 			}
 		}()
 		z := &dm.Node{Kind: "leaf", Name: "z", Type: ty}
+		if c.Default != "" {
+			d := c.Default
+			z.Default = &d
+		}
 		switch c.Shape {
 		case "nested", "nested-prefixed":
 			return &dm.Node{Kind: "container", Name: "h", Children: []*dm.Node{z}}
@@ -191,6 +201,9 @@ func c16Run(c c16Case, o *hx.Obs) {
 	o.Class("op=%s", c.Op)
 	o.Class("type=%s", c.Base)
 	o.Class("presence=%s", present)
+	if c.Default != "" && present == "unset" {
+		o.Class("an unset operand has a schema default")
+	}
 	sig := func(clause string) string {
 		return "predicate|" + c.Op + "|" + c.Base + "|" + present + "|" + clause + "|" + c.Placement
 	}
@@ -199,6 +212,10 @@ func c16Run(c c16Case, o *hx.Obs) {
 	for i := 0; i < rows; i++ {
 		if c.Unset[i] {
 			near = true
+			if c.Default != "" {
+				// the leaf reads as its default
+				holds[i] = c16Holds(c, c.Default)
+			}
 			continue
 		}
 		holds[i] = c16Holds(c, c.Values[i])
@@ -260,11 +277,17 @@ func c16Run(c c16Case, o *hx.Obs) {
 		}
 		m.Extra = "grouping g { leaf y { type string; } leaf y2 {" + own + " type string; } } uses g { when " + dm.QuoteYang(expr) + "; }"
 		m.Top = []*dm.Node{zLeaf(), str("out"), str("w")}
+		if c.Mid != "" {
+			m.Extra = "grouping g { leaf y { type string; } leaf y2 {" + own + " type string; } } grouping g0 { uses g { when \"w2='on'\"; } } uses g0 { when " + dm.QuoteYang(expr) + "; }"
+			m.Top = append(m.Top, str("w2"))
+			data["w2"] = map[string]string{"holds": "on", "fails": "off"}[c.Mid]
+			o.Class("the grouping is used through a second uses with a when that %s", c.Mid)
+		}
 		data["y"], data["y2"], data["out"] = "guarded", "g2", "x"
 		data["w"] = map[string]string{"": "on", "holds": "on", "fails": "off"}[c.Own]
 		setZ(data, 0)
 		want = dm.CloneTree(data)
-		if !holds[0] {
+		if !holds[0] || c.Mid == "fails" {
 			delete(want, "y")
 			delete(want, "y2")
 		}
@@ -467,7 +490,7 @@ func c16Run(c c16Case, o *hx.Obs) {
 		case c.Placement == "leaf-when":
 			keep, drop = []string{"y", "out"}, []string{zn}
 		case c.Placement == "uses-when":
-			keep, drop = []string{"y", "y2", "out"}, []string{zn, "w"}
+			keep, drop = []string{"y", "y2", "out"}, []string{zn, "w", "w2"}
 		case c.Placement == "augment-when":
 			keep, drop = []string{"c/y", "c/out"}, []string{"c/" + zn, "c/w"}
 		case c.Placement == "list-when":
@@ -489,7 +512,7 @@ func c16Run(c c16Case, o *hx.Obs) {
 			case dm.Tree:
 				out := dm.Tree{}
 				for k, e := range x {
-					if k != zn && (k != "w" || c.Hide == "content") {
+					if k != zn && ((k != "w" && k != "w2") || c.Hide == "content") {
 						out[k] = strip(e)
 					}
 				}
@@ -574,7 +597,7 @@ func c16Run(c c16Case, o *hx.Obs) {
 		o.Failf(sig("shape"), "%s\n%s", probs[0], text)
 		return
 	}
-	if d := dm.Diff(modelRoot, want, got, dm.DiffOpts{IgnoreEmptyList: true}, ""); len(d) > 0 {
+	if d := dm.Diff(modelRoot, want, got, dm.DiffOpts{IgnoreEmptyList: true, AllowDefaults: c.Default != ""}, ""); len(d) > 0 {
 		clause := "visible-when-false"
 		if strings.Contains(d[0], "missing") {
 			clause = "hidden-when-true"
@@ -607,6 +630,9 @@ func c16Gen(t *rapid.T) c16Case {
 	if !c.Edit && c.Placement != "filter" && rapid.IntRange(0, 3).Draw(t, "hide") == 0 {
 		c.Hide = rapid.SampledFrom([]string{"fields", "xfields", "content"}).Draw(t, "hide-by")
 	}
+	if c.Placement == "uses-when" && !c.Edit {
+		c.Mid = rapid.SampledFrom([]string{"", "", "holds", "holds", "fails"}).Draw(t, "mid-when")
+	}
 	if (c.Placement == "uses-when" || c.Placement == "augment-when") && !c.Edit {
 		c.Own = rapid.SampledFrom([]string{"", "holds", "fails"}).Draw(t, "own-when")
 	}
@@ -627,6 +653,12 @@ func c16Gen(t *rapid.T) c16Case {
 		return dm.GenValue(t, ty, label, true)
 	}
 	c.Literal = genV("literal")
+	if c.Shape == "" && !c.Edit && c.Placement != "filter" && rapid.IntRange(0, 3).Draw(t, "operand-default") == 0 {
+		c.Default = c.Literal
+		if rapid.Bool().Draw(t, "default-other") {
+			c.Default = genV("default")
+		}
+	}
 	n := rapid.IntRange(1, 5).Draw(t, "rows")
 	for i := 0; i < n; i++ {
 		var v string
